@@ -157,6 +157,9 @@ fn dispatch_inner(prop: &str, ctx: Ctx, replay: Option<&str>) -> i32 {
         "C03" => {
             let mut rep = Report::new("C03");
             c03::run(ctx, &mut rep);
+            if ctx.tier == crate::report::Tier::Thorough && std::env::var("VERIF_SKIP_MIRI").is_err() {
+                miri_step(&mut rep, "c03");
+            }
             finish(rep, c03::meta(), ctx.tier, ctx.seed, started)
         }
         _ => {
@@ -228,6 +231,44 @@ pub fn replay_file(prop: &str, path: &str) -> i32 {
         _ => {
             eprintln!("replay not supported for this case kind");
             2
+        }
+    }
+}
+
+/// Secondary oracle of the thorough tier: replay the reduced workload under Miri (undefined behaviour
+/// in the bytes split/advance/reserve paths the decoder leans on). A Miri error report is a violation;
+/// a missing toolchain or a timeout is recorded as a note, never as a verdict.
+fn miri_step(rep: &mut Report, what: &str) {
+    let harness = crate::report::verif_root().join("harness");
+    let started = Instant::now();
+    let out = std::process::Command::new("timeout")
+        .arg("2400")
+        .args(["cargo", "+nightly", "miri", "run", "--offline", "--bin", "mon", "--", "miri", what])
+        .current_dir(&harness)
+        .env("MIRIFLAGS", "-Zmiri-disable-isolation")
+        .env("CARGO_TARGET_DIR", harness.join("target").join("miri"))
+        .env("CARGO_NET_OFFLINE", "true")
+        .output();
+    match out {
+        Err(e) => rep.note(format!("miri step not run: {e}")),
+        Ok(o) => {
+            let stdout = String::from_utf8_lossy(&o.stdout).to_string();
+            let stderr = String::from_utf8_lossy(&o.stderr).to_string();
+            let result = stdout.lines().find(|l| l.starts_with("MIRI-RESULT")).map(|l| l.to_string());
+            if stderr.contains("Undefined Behavior") || stderr.contains("error: unsupported operation") && result.is_none() && stderr.contains("Undefined") {
+                let first = stderr.lines().find(|l| l.contains("Undefined Behavior")).unwrap_or("").to_string();
+                rep.violate("codec", "miri", "undefined_behaviour", format!("Miri reported: {first}"), serde_json::json!({"kind": "miri", "what": what, "stderr_tail": stderr.lines().rev().take(25).collect::<Vec<_>>()}));
+            } else if let Some(r) = result {
+                rep.add("miri_runs", 1);
+                rep.note(format!("Miri replay ({:.0} s): {r} — no undefined behaviour reported on this reduced workload (not a memory-safety claim)", started.elapsed().as_secs_f64()));
+                if stdout.lines().any(|l| l.starts_with("MIRI-VIOLATION")) {
+                    for l in stdout.lines().filter(|l| l.starts_with("MIRI-VIOLATION")).take(3) {
+                        rep.violate("codec", "miri", "oracle_mismatch_under_miri", l.to_string(), serde_json::json!({"kind": "miri", "what": what}));
+                    }
+                }
+            } else {
+                rep.note(format!("miri step inconclusive (exit {:?}, {:.0} s): {}", o.status.code(), started.elapsed().as_secs_f64(), stderr.lines().last().unwrap_or("")));
+            }
         }
     }
 }
